@@ -309,6 +309,77 @@ func RunFaultCase(rt *rapid.T, env *Env, prop *SimProp, faults func(w *World) []
 			judge(vw, vw.SymScript)
 		}
 	}
+	// held-worker variants: the connection that waits for the answer to a call or
+	// auth request sends the same request again while the messaging client does
+	// not return from SendRequest, so its worker is busy; the fault strikes, the
+	// first request is answered (as it was, and with a resource response), and
+	// only then is the worker let go: the answer is handed to a connection whose
+	// disposal is queued but has not run
+	for _, fault := range fs {
+		if len(fault) != 1 || fault[0].O != "" || fault[0].S != "" {
+			continue
+		}
+		if fault[0].K != "stop" && fault[0].K != "close" {
+			continue
+		}
+		for k := 0; k < len(base); k++ {
+			a := base[k]
+			if a.K != "ans" || !(strings.HasPrefix(a.S, "call.") || strings.HasPrefix(a.S, "auth.")) || a.A == 0 {
+				continue
+			}
+			actor := actorDec(a.A)
+			if fault[0].K == "close" && fault[0].C != actor {
+				continue
+			}
+			// the request that is being answered
+			var again *Op
+			for j := k - 1; j >= 0 && again == nil; j-- {
+				if base[j].K == "creq" && base[j].C == actor && base[j].N <= 1 &&
+					(strings.HasPrefix(base[j].M, "call.") || strings.HasPrefix(base[j].M, "auth.")) {
+					c := base[j]
+					c.ID = uint64(800000 + k)
+					again = &c
+				}
+			}
+			if again == nil {
+				continue
+			}
+			answers := []Op{a}
+			if i := strings.LastIndex(a.S, "."); i > 5 {
+				r := a
+				r.O, r.P = "resource", a.S[5:i]
+				answers = append(answers, r)
+			}
+			for _, ans := range answers {
+				script := append([]Op(nil), base[:k]...)
+				script = append(script, Op{K: "par", O: "held", Par: []Op{*again, fault[0], ans}})
+				script = append(script, base[k+1:]...)
+				if prop.ID == "C20" {
+					script = faultVariant(script, len(script), nil, post)
+				}
+				vw, err := NewWorld(cfg)
+				if err != nil {
+					env.Inconclusive("NewWorld: " + err.Error())
+					return
+				}
+				vw.Monitors = prop.Monitors()
+				cj := openJournal(env, prop, p, cfg, vw)
+				vw.Settle()
+				for _, op := range script {
+					if op.K == "drain" {
+						answerAllOK(vw)
+						continue
+					}
+					vw.Exec(op)
+				}
+				cj()
+				if vw.HeldWorkers > 0 {
+					env.Stats.Classes["answer_while_disposal_queued"]++
+				}
+				judge(vw, vw.SymScript)
+			}
+		}
+	}
 }
 
 func init() {
